@@ -122,10 +122,12 @@ func runC03(r *oblig.Report) {
 	r.Rule("C03.3", "instance-table", "operand lists never share storage with a list still in use", 6)
 	r.Rule("C03.4", "instance-table", "rewrite stack discipline", 3)
 	r.Rule("R8.8", "instance-table", "layout vocabulary accepted by the embedded automata", 20)
+	r.Rule("R8.9", "instance-table", "the embedded parser automaton derives one token sequence per layout the property enumerates", 9)
 	e9pos.PrePassShape(c.P, r, "R9.1")
 	e1variants.ListenerOverrides(c.P, r, "R1.5")
 	e1variants.GrammarCoverage(c.P, r, "R1.5", w.ParserG)
 	e5path.RewriteMoves(c.P, r, "C03.3", fs)
 	e5path.StackDiscipline(c.P, r, "C03.4", fs)
 	w.LayoutVocabulary(r, "R8.8")
+	w.LayoutExemplars(r, "R8.9")
 }
